@@ -2,6 +2,7 @@
 from __future__ import annotations
 
 from vf.mon import clock, containers, steps
+from vf.mon.hdlc_mon import _with_empty_calls as hdlc_mon_empty
 
 
 POISON = object()  # appended by the monitor to every list that read() returned
@@ -58,6 +59,7 @@ def run(chunks, reader=None, states: set | None = None):
     kept = []
     err = (None, None)
     usable = containers.probe("p1", new_reader, b"/ISk5\\2MT382-1000\r\n\r\n1-0:1.8.0(000123.456*kWh)\r\n!\r\n")
+    chunks = hdlc_mon_empty(chunks, _runs)
     for i, ch in enumerate(chunks):
         clock.tick()
         if bystander is not None:
